@@ -82,14 +82,20 @@ func consume(r io.Reader) ([]byte, error) {
 	return lg.data, nil
 }
 
-var servers = map[int]*srv.Echo{}
+var servers = map[[2]int]*srv.Echo{}
 
-func server(readBuf int) *srv.Echo {
-	if s, ok := servers[readBuf]; ok {
+// maxBody: MaxRequestBodySize; in streaming mode it is not a limit but the size of the pre-read
+// window (capped at 8 KiB), so small values must change nothing observable.
+func server(readBuf, maxBody int) *srv.Echo {
+	if maxBody == 0 {
+		maxBody = 8 << 20
+	}
+	k := [2]int{readBuf, maxBody}
+	if s, ok := servers[k]; ok {
 		return s
 	}
-	s := srv.NewEcho(srv.Config{Stream: true, ReadBuf: readBuf, MaxBody: 8 << 20, ReadBody: consume})
-	servers[readBuf] = s
+	s := srv.NewEcho(srv.Config{Stream: true, ReadBuf: readBuf, MaxBody: maxBody, ReadBody: consume})
+	servers[k] = s
 	return s
 }
 
@@ -100,6 +106,7 @@ type Case struct {
 	Truncate int       `json:"truncate_at"` // -1 = complete; else the stream ends (EOF) after this many bytes of the message
 	Cuts     []int     `json:"cuts"`
 	ReadBuf  int       `json:"read_buf"`
+	MaxBody  int       `json:"max_request_body_size,omitempty"` // 0 = 8 MiB
 	// Transport "" = scripted connection; "netpoll" / "standard" = real transport behind a unix socket
 	Transport string `json:"transport,omitempty"`
 }
@@ -152,7 +159,7 @@ func Check(c *Case) string {
 	var conn *sconn.Conn
 	probe := probeReq()
 	if c.Transport == "" {
-		obs, res, conn = server(c.ReadBuf).Run(sconn.Split(stream, c.Cuts), sconn.EOF)
+		obs, res, conn = server(c.ReadBuf, c.MaxBody).Run(sconn.Split(stream, c.Cuts), sconn.EOF)
 	} else {
 		probe = probeReqClose()
 		ne, err := netServer(c.Transport)
@@ -250,6 +257,12 @@ func Check(c *Case) string {
 	case len(obs) == 1 && len(finals) == 1:
 		if c.Truncate < 0 && c.Probe && !res.Closed {
 			return "probe not served and connection not closed"
+		}
+		// "or the connection is closed": the server must close, not go back to waiting for the peer.
+		// If it asks for more input although the complete probe was delivered and is unanswered, the
+		// probe's bytes were swallowed and a real client would wait for its response until a timeout.
+		if c.Truncate < 0 && c.Probe && conn != nil && conn.EndReads > 0 {
+			return fmt.Sprintf("the pipelined probe was delivered completely but never answered, and the server went back to waiting for more input (%d read(s) after the end of the script) instead of closing: the probe's bytes were consumed as something else", conn.EndReads)
 		}
 	case len(obs) == 2 && len(finals) == 2:
 		if !c.Probe || c.Truncate >= 0 {
@@ -396,7 +409,7 @@ func TestC14Stream(t *testing.T) {
 		if r.Framing == wire.FrNone {
 			r.Body, r.BodyLen = nil, 0
 		}
-		c := &Case{Req: r, Truncate: -1, ReadBuf: rapid.SampledFrom([]int{4096, 4096, 1, 8192}).Draw(t, "readBuf")}
+		c := &Case{Req: r, Truncate: -1, ReadBuf: rapid.SampledFrom([]int{4096, 4096, 1, 8192}).Draw(t, "readBuf"), MaxBody: rapid.SampledFrom([]int{0, 0, 16, 1000, 8192, 20000}).Draw(t, "maxRequestBodySize")}
 		c.Prog = genProgram(t, r.BodyLen, chunkEnds(r))
 		c.Probe = rapid.IntRange(0, 4).Draw(t, "probe") > 0
 		var enc []byte
@@ -632,5 +645,26 @@ func TestC14Replay(t *testing.T) {
 	if msg := Check(&c); msg != "" {
 		ev.Fail(prop, "replay", &c, msg)
 		t.Fatal(msg)
+	}
+}
+
+// Saved inputs (D24): Content-Length above MaxRequestBodySize in streaming mode; the pre-read used to
+// swallow the pipelined probe, which was then neither answered nor followed by a close.
+func TestC14Regress(t *testing.T) {
+	rec := ev.New("regress")
+	host := wire.KV{K: "Host", V: "example.com"}
+	for _, n := range []int{17, 32, 1000} {
+		for _, stop := range []int{-1, 0, 5, n} {
+			for _, cuts := range [][]int{nil, {30}, {60}} {
+				body := gen.Body(n, 0, 3, 0)
+				r := &wire.Req{Method: "POST", Target: "/up", Proto: "HTTP/1.1", Lines: []wire.KV{host, {K: "Content-Length", V: fmt.Sprint(n)}}, Framing: wire.FrCL, Body: body, BodyLen: n}
+				c := &Case{Req: r, Truncate: -1, Probe: true, ReadBuf: 4096, MaxBody: 16, Cuts: cuts, Prog: Program{Sizes: []int{7}, Stop: stop}}
+				rec.Case(true, ev.HashString(fmt.Sprint(n, stop, cuts)), "regress-D24")
+				if msg := Check(c); msg != "" {
+					ev.Fail(prop, "regress", map[string]interface{}{"case": "D24", "body": n, "stop": stop, "cuts": cuts}, msg)
+					t.Errorf("D24 body=%d stop=%d cuts=%v: %s", n, stop, cuts, msg)
+				}
+			}
+		}
 	}
 }
